@@ -68,6 +68,9 @@ Refs(st, p) == { x \in (DOMAIN st.tabs) \X (1..4) : x[2] \in Idxs(st.tabs[x[1]].
 \* ---------- results ----------
 \* alt = "err": rejecting the statement (database unchanged) is conforming as well -- used where SQL leaves the
 \* moment of a check open (NO ACTION checked at the end of the statement vs. immediately)
+\* alt = "ok": accepting the statement as a no-op (0 rows, database unchanged) is conforming as well -- used where
+\* the error would only be found by evaluating an expression that the implementation never needs to evaluate
+\* (an unknown column in the WHERE / SET clause of an UPDATE or DELETE that selects no row)
 Res(out, st, cnt) == [out |-> out, st |-> st, cnt |-> cnt, alt |-> ""]
 Fail(st)   == Res("err", st, 0)
 Ok(st, n)  == Res("ok", st, n)
@@ -191,7 +194,8 @@ WhereErr(st, t, w) == LET T == st.tabs[t] IN
 DoUpdate(st, a) ==
    IF a.t \notin DOMAIN st.tabs THEN Fail(st) ELSE
    LET T == st.tabs[a.t] IN
-   IF (\E j \in Idxs(a.set) : ~HasCol(T, a.set[j].c)) \/ WhereErr(st, a.t, a.w) THEN Fail(st) ELSE
+   IF WhereErr(st, a.t, a.w) THEN [Fail(st) EXCEPT !.alt = "ok"] ELSE
+   IF \E j \in Idxs(a.set) : ~HasCol(T, a.set[j].c) THEN [Fail(st) EXCEPT !.alt = IF Selected(st, a.t, a.w) = {} THEN "ok" ELSE ""] ELSE
    LET sel == Selected(st, a.t, a.w)
        newRow(r) == [c \in Idxs(T.cols) |->
                        IF \E j \in Idxs(a.set) : a.set[j].c = T.cols[c].n
@@ -221,7 +225,8 @@ DoUpdate(st, a) ==
 
 \* ---------- DELETE / TRUNCATE ----------
 DoDelete(st, a) ==
-   IF a.t \notin DOMAIN st.tabs \/ WhereErr(st, a.t, a.w) THEN Fail(st) ELSE
+   IF a.t \notin DOMAIN st.tabs THEN Fail(st) ELSE
+   IF WhereErr(st, a.t, a.w) THEN [Fail(st) EXCEPT !.alt = "ok"] ELSE
    LET sel == Selected(st, a.t, a.w)
        r == DeleteRows(st, a.t, sel, 3)
        T == st.tabs[a.t]
@@ -269,6 +274,48 @@ DoCreateIndex(st, a) ==
    IF a.uq /\ ~NoDupKeys(T, IdxKeyCols(ix), T.rows) THEN Fail(st)
    ELSE Ok([st EXCEPT !.idx = FnPut(st.idx, a.n, ix)], 0)
 DoDropIndex(st, a) == IF a.n \in DOMAIN st.idx THEN Ok([st EXCEPT !.idx = FnDel(st.idx, a.n)], 0) ELSE Fail(st)
+
+\* ---------- ALTER TABLE ... ADD / DROP / CHANGE COLUMN (C33) ----------
+\* Retained columns keep their data; a new column holds its default (or NULL) in every existing row.
+UsesCol(ix, c) == \E j \in Idxs(ix.cols) : ix.cols[j].c = c
+ColInConstraint(st, t, c) ==
+   LET T == st.tabs[t] IN
+   \/ \E j \in Idxs(T.pk) : T.pk[j] = c
+   \/ \E u \in Idxs(T.uqs) : \E j \in Idxs(T.uqs[u]) : T.uqs[u][j] = c
+   \/ T.checks # <<>>
+   \/ \E f \in Idxs(T.fks) : \E j \in Idxs(T.fks[f].cols) : T.fks[f].cols[j] = c
+   \/ \E x \in Refs(st, t) : \E j \in Idxs(st.tabs[x[1]].fks[x[2]].rcols) : st.tabs[x[1]].fks[x[2]].rcols[j] = c
+DoAddCol(st, a) ==
+   IF a.t \notin DOMAIN st.tabs THEN Fail(st) ELSE
+   LET T == st.tabs[a.t] IN
+   IF HasCol(T, a.col.n) THEN Fail(st) ELSE
+   LET v == IF a.col.def.t = "none" THEN NULL ELSE a.col.def
+       T2 == [T EXCEPT !.cols = Append(@, [n |-> a.col.n, ty |-> a.col.ty, nn |-> FALSE, def |-> a.col.def]),
+                       !.rows = [i \in Idxs(T.rows) |-> Append(T.rows[i], v)]]
+   IN Ok([st EXCEPT !.tabs[a.t] = T2], 0)
+\* indexes that use the column go with it; refusing the statement because of them is conforming as well
+DoDropCol(st, a) ==
+   IF a.t \notin DOMAIN st.tabs THEN Fail(st) ELSE
+   LET T == st.tabs[a.t] IN
+   IF ~HasCol(T, a.c) \/ Len(T.cols) <= 1 \/ (\E j \in Idxs(T.pk) : T.pk[j] = a.c) THEN Fail(st) ELSE
+   IF ColInConstraint(st, a.t, a.c) THEN Res("unmodelled", st, 0) ELSE
+   LET k == ColIdx(T, a.c)
+       cut(sq) == SubSeq(sq, 1, k - 1) \o SubSeq(sq, k + 1, Len(sq))
+       T2 == [T EXCEPT !.cols = cut(@), !.rows = [i \in Idxs(T.rows) |-> cut(T.rows[i])]]
+       hit == { i \in DOMAIN st.idx : st.idx[i].t = a.t /\ UsesCol(st.idx[i], a.c) }
+   IN [Ok([st EXCEPT !.tabs[a.t] = T2, !.idx = [i \in (DOMAIN st.idx) \ hit |-> st.idx[i]]], 0) EXCEPT !.alt = IF hit = {} THEN "" ELSE "err"]
+\* CHANGE COLUMN old new <same type>: a rename; indexes follow the new name (or the statement is refused because of them)
+DoRenCol(st, a) ==
+   IF a.t \notin DOMAIN st.tabs THEN Fail(st) ELSE
+   LET T == st.tabs[a.t] IN
+   IF ~HasCol(T, a.c) \/ (a.to # a.c /\ HasCol(T, a.to)) THEN Fail(st) ELSE
+   IF ColInConstraint(st, a.t, a.c) THEN Res("unmodelled", st, 0) ELSE
+   LET k == ColIdx(T, a.c)
+       T2 == [T EXCEPT !.cols[k].n = a.to]
+       hit == { i \in DOMAIN st.idx : st.idx[i].t = a.t /\ UsesCol(st.idx[i], a.c) }
+       ren(ix) == [ix EXCEPT !.cols = [j \in Idxs(ix.cols) |-> IF ix.cols[j].c = a.c THEN [ix.cols[j] EXCEPT !.c = a.to] ELSE ix.cols[j]]]
+   IN [Ok([st EXCEPT !.tabs[a.t] = T2, !.idx = [i \in DOMAIN st.idx |-> IF i \in hit THEN ren(st.idx[i]) ELSE st.idx[i]]], 0)
+          EXCEPT !.alt = IF hit = {} THEN "" ELSE "err"]
 
 \* ALTER TABLE t ADD CONSTRAINT n FOREIGN KEY ...: accepted iff the existing rows already satisfy it
 DoAddFk(st, a) ==
@@ -322,6 +369,9 @@ Apply(st, a) ==
      [] a.a = "di"       -> DoDropIndex(st, a)
      [] a.a = "analyze"  -> IF a.t = "" \/ a.t \in DOMAIN st.tabs THEN Ok(st, 0) ELSE Fail(st)
      [] a.a = "addfk"    -> DoAddFk(st, a)
+     [] a.a = "addcol"   -> DoAddCol(st, a)
+     [] a.a = "dropcol"  -> DoDropCol(st, a)
+     [] a.a = "rencol"   -> DoRenCol(st, a)
      [] a.a = "cv"       -> DoCreateView(st, a)
      [] a.a = "dv"       -> DoDropView(st, a)
      [] a.a = "begin"    -> DoBegin(st)
